@@ -115,6 +115,11 @@ Proof. unfold upd_top. destruct (ups s); reflexivity. Qed.
 Lemma cells_upd_top g s : m_cells (upd_top g s) = m_cells s.
 Proof. unfold upd_top. destruct (ups s); reflexivity. Qed.
 
+Lemma heap_upd_target l g s : heap (upd_target l g s) = heap s.
+Proof. destruct l; [apply heap_upd_top|reflexivity]. Qed.
+Lemma cells_upd_target l g s : m_cells (upd_target l g s) = m_cells s.
+Proof. destruct l; [apply cells_upd_top|reflexivity]. Qed.
+
 Lemma getitem_heap k s : heap (fst (getitem k s)) = heap s.
 Proof. unfold getitem. destruct (lookup s k); reflexivity. Qed.
 
@@ -133,8 +138,11 @@ Proof.
   - exists []. rewrite app_nil_r. apply heap_upd_top.
   - exists []. now rewrite app_nil_r.
   - exists []. rewrite app_nil_r. unfold let_macro. destruct (getitem s0 s) as [s1 v] eqn:E.
-    rewrite heap_upd_top. change s1 with (fst (s1, v)). rewrite <- E. apply getitem_heap.
-  - exists []. rewrite app_nil_r. apply heap_upd_top.
+    rewrite heap_upd_target. change s1 with (fst (s1, v)). rewrite <- E. apply getitem_heap.
+  - exists []. rewrite app_nil_r. apply heap_upd_target.
+  - exists []. rewrite app_nil_r. unfold let_macro. destruct (getitem s0 s) as [s1 v] eqn:E.
+    rewrite heap_upd_target. change s1 with (fst (s1, v)). rewrite <- E. apply getitem_heap.
+  - exists []. rewrite app_nil_r. apply heap_upd_target.
   - eexists. apply heap_catcode.
   - eexists. apply heap_verbatim.
   - exists []. rewrite app_nil_r. apply getitem_heap.
@@ -274,6 +282,9 @@ Proof.
   - unfold let_macro. destruct (getitem s0 s) as [s1 v] eqn:E. apply wf_upd_top; [reflexivity|].
     change s1 with (fst (s1, v)). rewrite <- E. now apply wf_getitem.
   - now apply wf_upd_top.
+  - unfold let_macro. destruct (getitem s0 s) as [s1 v] eqn:E. apply wf_upd_bottom; [reflexivity|].
+    change s1 with (fst (s1, v)). rewrite <- E. now apply wf_getitem.
+  - now apply wf_upd_bottom.
   - unfold catcode, alloc. apply wf_heap_update. now apply wf_install.
   - unfold verbatim, alloc. now apply wf_install.
   - now apply wf_getitem.
@@ -294,7 +305,7 @@ Proof. reflexivity. Qed.
 (* ------------------------------------------------------------------------------------------------ *)
 (* one non-grouping operation inside a group is its lexical meaning *)
 
-Definition same_bottom (b' b : frame) : Prop := lets b' = lets b /\ cats b' = cats b /\ fobj b' = fobj b.
+Definition same_bottom (b' b : frame) : Prop := cats b' = cats b /\ fobj b' = fobj b.
 Lemma same_bottom_refl b : same_bottom b b.
 Proof. repeat split. Qed.
 Lemma same_bottom_trans a b c : same_bottom a b -> same_bottom b c -> same_bottom a c.
@@ -333,13 +344,21 @@ Proof.
     split; [|split; [exists f; split; [exact E|reflexivity]|repeat split]].
     apply senv_eq; reflexivity.
   - (* LetMacro *)
-    unfold let_macro. destruct (getitem_abs s0 s f us E) as (Ha & Hv & Hu & Hb & Hc & Hh).
+    unfold let_macro, upd_target. destruct (getitem_abs s0 s f us E) as (Ha & Hv & Hu & Hb & Hc & Hh).
     destruct (getitem s0 s) as [s1 v]. destruct (s_getitem (abs s) s0) as [e1 v']. cbn in *. subst v' e1.
     unfold upd_top. rewrite Hu, E. split; [|split; [eexists; split; reflexivity|exact Hb]].
     apply senv_eq; cbn; rewrite ?Hu, ?E; reflexivity.
   - (* LetTok *)
-    unfold let_tok, upd_top. rewrite E. split; [|split; [eexists; split; reflexivity|apply same_bottom_refl]].
+    unfold let_tok, upd_target, upd_top. rewrite E. split; [|split; [eexists; split; reflexivity|apply same_bottom_refl]].
     apply senv_eq; cbn; try reflexivity; now rewrite E.
+  - (* GLetMacro *)
+    unfold let_macro, upd_target. destruct (getitem_abs s0 s f us E) as (Ha & Hv & Hu & Hb & Hc & Hh).
+    destruct (getitem s0 s) as [s1 v]. destruct (s_getitem (abs s) s0) as [e1 v']. cbn in *. subst v' e1.
+    split; [|split; [exists f; split; [now rewrite Hu|reflexivity]|exact Hb]].
+    apply senv_eq; reflexivity.
+  - (* GLetTok *)
+    split; [|split; [exists f; split; [exact E|reflexivity]|repeat split]].
+    apply senv_eq; reflexivity.
   - (* Catcode *)
     split; [|split].
     + apply senv_eq; cbn -[catcode]; try (unfold catcode, alloc, heap_update, upd_top; cbn; rewrite E; reflexivity).
@@ -415,7 +434,7 @@ Proof.
   - now rewrite Hu2.
   - rewrite Hc2. unfold table_at at 1. change (heap (pop p s1)) with (heap s1). rewrite Hh. apply table_at_ext. now apply wf_cur_lt.
   - reflexivity.
-  - apply Hb.
+  - reflexivity.
   - reflexivity.
 Qed.
 
@@ -492,7 +511,7 @@ Theorem balanced_restores s o p b e1 :
   wf s' /\
   ups s' = ups s /\                                   (* every frame above the global one is untouched *)
   cur s' = cur s /\ (exists ext, heap s' = heap s ++ ext) /\   (* same table in force, no existing table modified *)
-  bottom s' = set_macros (bottom s) (glo_m e1) /\     (* the global frame: only its namespace, = the group's global effect *)
+  bottom s' = set_lets (set_macros (bottom s) (glo_m e1)) (glo_l e1) /\   (* the global frame: only its namespace, = the group's global effect *)
   m_cells s' = s_cells e1 /\
   abs s' = leave (abs s) e1.
 Proof.
@@ -507,7 +526,7 @@ Proof.
     as (W2 & U2 & C2 & H2 & B2 & M2 & A2).
   split; [exact W2|]. split; [exact U2|]. split; [exact C2|]. split; [exists ext1; now rewrite H2|].
   rewrite A1 in A2. split; [|split; [rewrite M2, <- A1; reflexivity|exact A2]].
-  rewrite B2. destruct B1 as (Bl & Bc & Bo). rewrite <- A1. cbn.
+  rewrite B2. destruct B1 as (Bc & Bo). rewrite <- A1. cbn.
   destruct (bottom (run b (push o s))), (bottom s); cbn in *. now subst.
 Qed.
 
@@ -563,9 +582,12 @@ Proof.
   - unfold pop, tags. cbn. destruct o; [apply map_pop_obj|apply map_pop_none].
   - now apply tags_upd_top.
   - reflexivity.
-  - unfold let_macro. destruct (getitem s0 s) as [s1 v] eqn:E. rewrite tags_upd_top by reflexivity.
+  - unfold let_macro. destruct (getitem s0 s) as [s1 v] eqn:E. unfold upd_target. rewrite tags_upd_top by reflexivity.
     change s1 with (fst (s1, v)). rewrite <- E. apply tags_getitem.
   - now apply tags_upd_top.
+  - unfold let_macro. destruct (getitem s0 s) as [s1 v] eqn:E. unfold upd_target, upd_bottom, tags. cbn.
+    change (ups s1) with (ups (fst (s1, v))). rewrite <- E. apply tags_getitem.
+  - reflexivity.
   - destruct s as [u b hp cr m]. destruct u; reflexivity.
   - destruct s as [u b hp cr m]. destruct u; reflexivity.
   - apply tags_getitem.
@@ -660,6 +682,8 @@ Proof.
   destruct o; cbn; intros H; try reflexivity.
   - apply negb_true_iff in H. now rewrite H.
   - unfold s_getitem. destruct (s_lookup e s); cbn; [reflexivity|]. apply negb_true_iff in H. now rewrite H.
+  - apply andb_true_iff in H. destruct H as (Hd & Hs). apply negb_true_iff in Hd, Hs.
+    unfold s_getitem. destruct (s_lookup e s); cbn; rewrite Hd; [reflexivity|]. now rewrite Hs.
   - unfold s_getitem. destruct (s_lookup e k0); cbn; [reflexivity|]. apply negb_true_iff in H. now rewrite H.
   - destruct (s_lookup e k0); cbn; [reflexivity|].
     apply andb_true_iff in H. destruct H as (H & H3). apply andb_true_iff in H. destruct H as (H1 & H2).
@@ -681,17 +705,43 @@ Proof.
   - cbn in Hn. now rewrite (IH Hn).
 Qed.
 
+Lemma sstep_glo_l k o e : no_glet k o = true -> find k (glo_l (sstep o e)) = find k (glo_l e).
+Proof.
+  destruct o; cbn; intros H; try reflexivity.
+  - unfold s_getitem. destruct (s_lookup e s); reflexivity.
+  - unfold s_getitem. destruct (s_lookup e s); reflexivity.
+  - apply negb_true_iff in H. now rewrite H.
+  - unfold s_getitem. destruct (s_lookup e k0); reflexivity.
+  - destruct (s_lookup e k0); reflexivity.
+  - destruct (find c (s_cells e)); reflexivity.
+Qed.
+
+Lemma sem_glo_l k K h e e' : Sem K h e e' -> forallb (no_glet k) h = true -> find k (glo_l e') = find k (glo_l e).
+Proof.
+  induction 1 as [K e|K o h e e' Hs _ IH|K b h e e1 e' _ IHb _ IHh|K o p b h e e1 e' Hd Hc _ IHb _ IHh
+                 |h e e' _ IH|o h e e' Hd _ IH]; intros Hn.
+  - reflexivity.
+  - cbn in Hn. apply andb_true_iff in Hn. destruct Hn as (Ho & Hn). rewrite (IH Hn). now apply sstep_glo_l.
+  - cbn in Hn. rewrite forallb_app in Hn. cbn in Hn. apply andb_true_iff in Hn. destruct Hn as (Hb & Hh).
+    rewrite (IHh Hh). cbn. now rewrite (IHb Hb).
+  - cbn in Hn. rewrite forallb_app in Hn. cbn in Hn. apply andb_true_iff in Hn. destruct Hn as (Hb & Hh).
+    rewrite (IHh Hh). cbn. now rewrite (IHb Hb).
+  - cbn in Hn. now rewrite (IH Hn).
+  - cbn in Hn. now rewrite (IH Hn).
+Qed.
+
 Theorem local_dies s o p b e1 :
   wf s -> brackets o p = true -> Sem (kind_of o) b (enter o (abs s)) e1 ->
   let s' := run (Push o :: b ++ [Pop p]) s in
   (forall c, which s' c = which s c) /\
-  (forall k, get_let s' k = get_let s k) /\
+  (forall k, forallb (no_glet k) b = true -> get_let s' k = get_let s k) /\
   (forall k, forallb (no_gwrite k) b = true -> lookup s' k = lookup s k).
 Proof.
   intros Hwf Hbr Hsem. destruct (balanced_restores s o p b e1 Hwf Hbr Hsem) as (W & U & C & (ext & Hh) & B & M & A).
   cbn zeta in *. set (s' := run (Push o :: b ++ [Pop p]) s) in *. split; [|split].
   - intros c. unfold which. rewrite C. f_equal. unfold table_at at 1. rewrite Hh. apply table_at_ext. now apply wf_cur_lt.
-  - intros k. unfold get_let. rewrite U, B, !chain_let_concat. reflexivity.
+  - intros k Hk. unfold get_let. rewrite U, !chain_let_concat, !find_app. destruct (find k (concat (map lets (ups s)))); [reflexivity|].
+    rewrite B. cbn. now rewrite (sem_glo_l k _ _ _ _ Hsem Hk).
   - intros k Hk. unfold lookup. rewrite U, !chain_get_concat, !find_app. destruct (find k (concat (map macros (ups s)))); [reflexivity|].
     rewrite B. cbn. now rewrite (sem_glo k _ _ _ _ Hsem Hk).
 Qed.
@@ -714,10 +764,14 @@ Proof.
   - reflexivity.
   - apply find_bottom_upd_top. intros f. cbn. apply negb_true_iff in Hl. now rewrite Hl.
   - cbn. apply negb_true_iff in Hg. now rewrite Hg.
-  - unfold let_macro. destruct (getitem s0 s) as [s1 v] eqn:E. rewrite find_bottom_upd_top.
+  - unfold let_macro, upd_target. destruct (getitem s0 s) as [s1 v] eqn:E. rewrite find_bottom_upd_top.
     + change s1 with (fst (s1, v)). rewrite <- E. apply getitem_bottom. now apply negb_true_iff.
     + intros f. cbn. apply negb_true_iff in Hl. now rewrite Hl.
   - now apply find_bottom_upd_top.
+  - apply andb_true_iff in Hg. destruct Hg as (Hd & Hs). apply negb_true_iff in Hd.
+    unfold let_macro. destruct (getitem s0 s) as [s1 v] eqn:E. unfold upd_target, upd_bottom. cbn. rewrite Hd.
+    change s1 with (fst (s1, v)). rewrite <- E. apply getitem_bottom. now apply negb_true_iff.
+  - reflexivity.
   - destruct s as [u b hp cr m]. destruct u; reflexivity.
   - destruct s as [u b hp cr m]. destruct u; reflexivity.
   - apply getitem_bottom. now apply negb_true_iff.
@@ -757,9 +811,11 @@ Proof.
   destruct o; cbn [step no_cell_write]; intros H; try reflexivity.
   - unfold push. destruct (is_doc o); reflexivity.
   - apply f_equal. apply cells_upd_top.
-  - unfold let_macro. destruct (getitem s0 s) as [s1 v] eqn:E. rewrite cells_upd_top.
+  - unfold let_macro. destruct (getitem s0 s) as [s1 v] eqn:E. rewrite cells_upd_target.
     unfold getitem in E. destruct (lookup s s0); injection E as <- _; reflexivity.
   - apply f_equal. apply cells_upd_top.
+  - unfold let_macro. destruct (getitem s0 s) as [s1 v] eqn:E. rewrite cells_upd_target.
+    unfold getitem in E. destruct (lookup s s0); injection E as <- _; reflexivity.
   - unfold catcode, alloc, heap_update. cbn. now rewrite cells_upd_top.
   - unfold verbatim, alloc. cbn. now rewrite cells_upd_top.
   - unfold getitem. destruct (lookup s k); reflexivity.
@@ -781,7 +837,7 @@ Qed.
 Definition binds (k : name) (o : op) : bool :=
   match o with
   | AddLocal k' _ | AddGlobal k' _ => k' =? k
-  | LetMacro d s => (d =? k) || (s =? k)
+  | LetMacro d s | GLetMacro d s => (d =? k) || (s =? k)
   | Getitem k' => k' =? k
   | NewIf a b c _ _ _ _ _ => (a =? k) || (b =? k) || (c =? k)
   | NewCounter _ t _ _ => t =? k
@@ -809,9 +865,14 @@ Proof.
   - unfold add_local. rewrite find_top_upd_top. cbn. now rewrite Hb.
   - apply top_upd_bottom_find. intros f. cbn. now rewrite Hb.
   - apply orb_false_iff in Hb. destruct Hb as (Hd & Hsrc).
-    unfold let_macro. destruct (getitem s0 s) as [s1 v] eqn:E. rewrite find_top_upd_top. cbn. rewrite Hd.
+    unfold let_macro, upd_target. destruct (getitem s0 s) as [s1 v] eqn:E. rewrite find_top_upd_top. cbn. rewrite Hd.
     change s1 with (fst (s1, v)). rewrite <- E. now apply getitem_top.
-  - unfold let_tok. now rewrite find_top_upd_top.
+  - unfold let_tok, upd_target. now rewrite find_top_upd_top.
+  - apply orb_false_iff in Hb. destruct Hb as (Hd & Hsrc).
+    unfold let_macro, upd_target. destruct (getitem s0 s) as [s1 v] eqn:E. rewrite top_upd_bottom_find.
+    + change s1 with (fst (s1, v)). rewrite <- E. now apply getitem_top.
+    + intros f. cbn. now rewrite Hd.
+  - unfold let_tok, upd_target. now apply top_upd_bottom_find.
   - destruct s as [u b hp cr m]. destruct u; reflexivity.
   - destruct s as [u b hp cr m]. destruct u; reflexivity.
   - now apply getitem_top.
@@ -831,7 +892,7 @@ Theorem let_snapshot s d src v h :
 Proof.
   intros Hl Hh. apply lookup_top.
   assert (find d (macros (top (step (LetMacro d src) s))) = Some v) as H0.
-  { cbn [step]. unfold let_macro, getitem. rewrite Hl. rewrite find_top_upd_top. cbn. now rewrite N.eqb_refl. }
+  { cbn [step]. unfold let_macro, upd_target, getitem. rewrite Hl. rewrite find_top_upd_top. cbn. now rewrite N.eqb_refl. }
   revert H0 Hh. generalize (step (LetMacro d src) s) as s1. induction h as [|o h IH]; intros s1 H0 Hh; cbn; [assumption|].
   cbn in Hh. apply andb_true_iff in Hh. destruct Hh as (Ho & Hh). apply andb_true_iff in Ho. destruct Ho as (Hs & Hb).
   apply negb_true_iff in Hb. apply IH; [|assumption]. now rewrite step_top_find.
